@@ -593,8 +593,9 @@ func (c *v4Cluster) newInst(r int, op, x, at string, par int) *v4Inst {
 }
 
 // children: the handler goroutines that are parked at propagate.received and belong to no instance yet
-func (c *v4Cluster) adoptChildren(parent *v4Inst) int {
+func (c *v4Cluster) adoptChildren(parent *v4Inst) string {
 	n := 0
+	to := "-"
 	for _, id := range v4IDs {
 		p := c.parkOf(func(p *v4Park) bool {
 			if p.name != "propagate.received."+id {
@@ -613,8 +614,13 @@ func (c *v4Cluster) adoptChildren(parent *v4Inst) int {
 		c.byGo[p.goid] = ch
 		c.mu.Unlock()
 		n++
+		if n == 1 {
+			to = id
+		} else {
+			to = "-" // several copies
+		}
 	}
-	return n
+	return to
 }
 
 func (c *v4Cluster) unadopted() int {
@@ -643,7 +649,7 @@ func (c *v4Cluster) nsub() int {
 
 // afterDispatch waits until the instance that was just let into metadata.X() is parked before the node
 // mutex, has returned, or has propagated the request (its copies are parked in the handlers)
-func (c *v4Cluster) afterDispatch(in *v4Inst) {
+func (c *v4Cluster) afterDispatch(in *v4Inst) string {
 	nsub := c.nsub()
 	c.stepAwait(fmt.Sprintf("instance %d after dispatch", in.id), func() bool {
 		if pc, _ := c.pcOf(in); pc == "done" {
@@ -652,17 +658,24 @@ func (c *v4Cluster) afterDispatch(in *v4Inst) {
 		if c.instPark(in, "raft.apply.enter") != nil {
 			return true
 		}
-		return nsub > 0 && c.unadopted() == nsub
+		return nsub > 0 && c.unadopted() >= 1
 	})
 	if pc, _ := c.pcOf(in); pc == "done" {
-		return
+		return "-"
 	}
 	if c.instPark(in, "raft.apply.enter") != nil {
 		c.setPc(in, "enter")
-		return
+		return "-"
 	}
-	c.adoptChildren(in)
+	if c.unadopted() == 0 {
+		return "-"
+	}
+	// the request was propagated: one subscribed server gets it (queue subscription); copies that other
+	// subscribers would get arrive at the same time
+	time.Sleep(20 * time.Millisecond)
+	to := c.adoptChildren(in)
 	c.setPc(in, "fwd")
+	return to
 }
 
 func (c *v4Cluster) call(in *v4Inst, ctx context.Context, part *partition) (bool, codes.Code) {
@@ -761,7 +774,7 @@ func (c *v4Cluster) step(step map[string]interface{}) (ev v4Event) {
 			c.mu.Unlock()
 		}()
 		<-ready
-		c.afterDispatch(in)
+		ev.Args["to"] = c.afterDispatch(in)
 		ev.Args["L"], ev.Args["E"] = L, E
 	case "Handle":
 		in := inst()
@@ -774,7 +787,7 @@ func (c *v4Cluster) step(step map[string]interface{}) (ev v4Event) {
 		}
 		in.t0 = time.Now()
 		c.release(p)
-		c.afterDispatch(in)
+		ev.Args["to"] = c.afterDispatch(in)
 	case "Lock":
 		in := inst()
 		if in == nil {
@@ -868,8 +881,20 @@ func (c *v4Cluster) step(step map[string]interface{}) (ev v4Event) {
 		if po >= 2 || pt >= 2 {
 			return skip("notification queue full")
 		}
-		if err := c.srv[old].getRaft().LeadershipTransferToServer(raft.ServerID(t), raft.ServerAddress(t)).Error(); err != nil {
-			c.stuck = fmt.Sprintf("leadership transfer %s -> %s: %v", old, t, err)
+		// a transfer that Raft gives up (the target did not catch up within an election timeout on a loaded
+		// machine) has changed nothing and is tried again
+		for try := 0; ; try++ {
+			err := c.srv[old].getRaft().LeadershipTransferToServer(raft.ServerID(t), raft.ServerAddress(t)).Error()
+			if err == nil {
+				break
+			}
+			time.Sleep(50 * time.Millisecond)
+			if c.leader() != old || pend(old) != po || pend(t) != pt || try >= 8 {
+				if c.srv[t].getRaft().State() != raft.Leader {
+					c.stuck = fmt.Sprintf("leadership transfer %s -> %s: %v", old, t, err)
+				}
+				break
+			}
 		}
 		c.stepAwait("leadership at "+t, func() bool {
 			if c.srv[t].getRaft().State() != raft.Leader {
@@ -882,6 +907,12 @@ func (c *v4Cluster) step(step map[string]interface{}) (ev v4Event) {
 			}
 			return pend(old) == po+1 && pend(t) == pt+1
 		})
+		if c.stuck != "" {
+			for _, id := range v4IDs {
+				c.stuck += fmt.Sprintf(" [%s state=%v leader=%s pend=%d]", id, c.srv[id].getRaft().State(), c.srv[id].getRaft().Leader(), pend(id))
+			}
+			c.stuck += fmt.Sprintf(" po=%d pt=%d", po, pt)
+		}
 	case "Lost", "Acquired":
 		s := vStr(step, "s")
 		p := c.leadPark(s)
